@@ -54,6 +54,9 @@ StructProgs(z) == { <<b>> \o t : b \in Blocks1(0) \cup Blocks2(0), t \in {<<>>, 
 
 \* ---- operand boundary values per operand kind ---------------------------------------
 Rep(n, x) == [i \in 1..n |-> x]
+\* 0.5, -0.75, 1.5, 3, -2, 100.25, 0, -0, 16777216, -0.015625
+FVals == {<<63, 0, 0, 0>>, <<191, 64, 0, 0>>, <<63, 192, 0, 0>>, <<64, 64, 0, 0>>, <<192, 0, 0, 0>>, <<66, 200, 128, 0>>,
+          <<0, 0, 0, 0>>, <<128, 0, 0, 0>>, <<75, 128, 0, 0>>, <<188, 128, 0, 0>>}
 OperandProgs(z) ==
     { <<NPush(VD(i))>> : i \in {0, 1, -1, 127, 128, -128, -129, 255, 256, 32767, 32768, -32768, -32769, 65535, 65536, 8388607, -8388608} }
     \cup { <<NPush(VX(Rep(n, 171)))>> : n \in {0, 1, 2, 255, 256, 257} }
@@ -63,6 +66,12 @@ OperandProgs(z) ==
     \cup { <<NBn("b2", 52, <<i, j>>)>> : i \in {0, 1, 255}, j \in {0, 2, 255} }
     \cup { <<NBn("b3", op, <<f, m, n>>)>> : op \in {70, 71}, f \in {0, 255}, m \in {0, 3, 255}, n \in {0, 5, 255} }
     \cup { <<NBn("f4", op, b)>> : op \in {23, 25}, b \in {<<0, 0, 0, 0>>, <<63, 192, 0, 0>>, <<255, 255, 255, 255>>} }
+    \* f literals: divisors (integral values only: the operand parser accepts no fraction) and pushed values
+    \cup { <<NF4(op, b)>> : op \in {23, 25}, b \in {<<64, 0, 0, 0>>, <<192, 0, 0, 0>>, <<64, 64, 0, 0>>, <<192, 224, 0, 0>>,
+                                                       <<75, 128, 0, 0>>, <<203, 128, 0, 0>>, <<0, 0, 0, 0>>, <<128, 0, 0, 0>>} }
+    \cup { <<NPush(VF(b))>> : b \in FVals }
+    \cup { <<NS1(op, VF(<<63, 192, 0, 0>>))>> : op \in {10, 17, 49} }
+    \cup { <<NMacroP(3, <<VF(<<191, 64, 0, 0>>), VD(5)>>)>>, <<NVvals(<<107>>, <<VF(<<63, 0, 0, 0>>), VX(<<1>>)>>)>> }
     \cup { <<NBn("h32", 60, Rep(32, x))>> : x \in {0, 171, 255} }
     \cup { <<NS1(op, v)>> : op \in {10, 11, 17, 19, 49, 50, 64}, v \in {VD(0), VD(5), VD(-1), VD(128), VD(-129), VD(70000), VX(<<>>), VX(<<0, 5>>), VX(Rep(255, 1)), VS(<<107>>)} }
     \cup { <<NWc(k, n)>> : k \in {VX(<<>>), VX(<<107>>), VX(Rep(255, 2)), VS(<<107, 49>>)}, n \in {0, 1, 255} }
@@ -71,6 +80,19 @@ OperandProgs(z) ==
     \cup { <<NP("p2", Rep(n, 7), "sz")>> : n \in {0, 1, 255, 256, 300} }
     \cup { <<NDef(h, <<TRUEOP>>, st)>> : h \in {0, 1, 127, 128, 255}, st \in {"brace", "dval", "xval"} }
     \cup { <<NVset(<<107>>, n)>> : n \in {0, 1, 255} }
+
+\* ---- an unassigned opcode in every syntactic context (C20: NOPn / the fork's name and aliases compile alike) ------
+NopNodes(z) == { NB1(cd, n, st) : cd \in {92, 200, 255}, n \in {0, 3}, st \in {"d", "x"} }
+NopCtxProgs(z) ==
+    UNION { { <<pre, x>>, <<pre, x, TRUEOP>> } : x \in NopNodes(0),
+            pre \in { NP("p1", <<7, 7>>, "nosz"), NP("p2", <<7, 7>>, "nosz"), NP("p1", <<7>>, "sz"), P5, NPush(VX(<<1, 2>>)), TRUEOP, CS0,
+                      NS1(10, VX(<<107>>)), NS1(17, VD(5)), NWc(VX(<<107>>), 1), NVar("vload", <<107>>), NVset(<<107>>, 1),
+                      NBn("b2", 52, <<0, 1>>), NBn("b3", 70, <<0, 1, 1>>), NF4(23, <<64, 0, 0, 0>>), NBn("h32", 60, Rep(32, 9)) } }
+    \cup UNION { { <<NIf(<<x>>, <<>>, "brace")>>, <<NIf(<<x>>, <<>>, "end")>>, <<NIf(<<TRUEOP>>, <<P5, x>>, "brace")>>,
+                   <<NIfe(<<x>>, <<x>>, "brace")>>, <<NIfe(<<TRUEOP>>, <<x>>, "end")>>, <<NTry(<<x>>, <<x, TRUEOP>>, "brace")>>,
+                   <<NTry(<<x>>, <<>>, "noexc")>>, <<NLoop(<<x>>, "brace")>>, <<NLoop(<<x, TRUEOP>>, "end")>>,
+                   <<NDef(1, <<x>>, "brace")>>, <<NDef(1, <<x>>, "end")>>, <<NDef(1, <<x>>, "dval")>>,
+                   <<NBody("macro", <<x>>)>>, <<NBody("ct", <<x>>)>>, <<NBody("ct", <<P5, x>>)>> } : x \in NopNodes(0) }
 
 \* ---- byte strings for the disassembler ------------------------------------------------
 \* one representative per decoder class for the longer strings
@@ -90,6 +112,7 @@ TraceLog == JsonDeserialize(IOEnv.TRACE_FILE)
 Cases(z) ==
     CASE Family = "struct"   -> { [k |-> "asm", p |-> p] : p \in StructProgs(0) }
       [] Family = "operands" -> { [k |-> "asm", p |-> p] : p \in OperandProgs(0) }
+      [] Family = "nopctx"   -> { [k |-> "asm", p |-> p] : p \in NopCtxProgs(0) }
       [] Family \in {"disasm2", "disasm3", "disasm4"} -> { [k |-> "dis", b |-> b] : b \in Strings(0) }
       [] Family = "trace"    -> { [k |-> "t", i |-> i] : i \in 1..Len(TraceLog) }
 
